@@ -48,6 +48,12 @@ def rule_with(position, fe):
         return '[Failing]\nmatch: %s\ncategory: CatFail\nsubcategory: SubFail\ntags: failtag\n' % fe
     if position == 'let':
         return '[Failing]\nlet: v = %s\nmatch: contains("ZZZ") or v == 12345\ncategory: CatFail\nsubcategory: SubFail\n' % fe
+    if position == 'let_read_under_not':
+        # the binding cannot be made, so a condition that reads it cannot be evaluated: read as None it would be TRUE here
+        return '[Failing]\nlet: v = %s\nmatch: not v\ncategory: CatFail\nsubcategory: SubFail\ntags: failtag\n' % fe
+    if position == 'let_shadows_variable':
+        # the binding that cannot be made has the name of a variable of the file: the rules after this one still see that variable
+        return '[Failing]\nlet: g = %s\nmatch: contains("ZZZ")\ncategory: CatFail\nsubcategory: SubFail\n' % fe
     if position == 'field':
         return '[Failing]\nmatch: contains("GOOD")\ncategory: CatGoodF\nsubcategory: SubGoodF\nfield: extra = %s\n' % fe
     if position == 'tag':
@@ -70,8 +76,12 @@ def check_engine(position, fe, order):
     w = {'position': position, 'expr': fe, 'order': order}
     failing = rule_with(position, fe)
     parts = {'F': failing, 'G': GOOD, 'A': AFTER}
-    text = '\n'.join(parts[c] for c in order)
-    text_without = '\n'.join(parts[c] for c in order if c != 'F')
+    head = ''
+    if position == 'let_shadows_variable':
+        head = 'g = amount > 500\n\n'
+        parts['A'] = AFTER.replace('match: amount > 500', 'match: g')
+    text = head + '\n'.join(parts[c] for c in order)
+    text_without = head + '\n'.join(parts[c] for c in order if c != 'F')
     try:
         eng = parse_merchants(text)
     except Exception as e:
@@ -88,7 +98,7 @@ def check_engine(position, fe, order):
                 O.fail('C08.match_aborts.%s' % position, dict(w, txn=ti, mode=mode), 'classification completes; failing %s skipped' % position,
                        '%s: %s' % (type(e).__name__, e), 'parse_merchants(text).match(txn)')
                 continue
-            if position == 'match':
+            if position in ('match', 'let_read_under_not', 'let_shadows_variable'):
                 want = summarize(ref.match(txn_dict(t)))
                 if got != want:
                     O.fail('C08.failing_rule_influences_result', dict(w, txn=ti, mode=mode), want, got)
@@ -255,7 +265,7 @@ def main():
             check_engine(w['position'], w['expr'], w.get('order', 'FGA'))
         O.finish()
     for fe in FAILING:
-        for position in ('match', 'let', 'field', 'tag'):
+        for position in ('match', 'let', 'let_read_under_not', 'let_shadows_variable', 'field', 'tag'):
             for order in ('FGA', 'GFA', 'AGF'):
                 check_engine(position, fe, order)
         for position in ('match', 'let', 'field', 'tag', 'transform', 'transform_then_good', 'variable'):
